@@ -186,7 +186,15 @@ def load_fixture(name):
 
 
 def make_lib(item):
-    return load_fixture(item["fixture"]) if "fixture" in item else build(item)
+    """item: a library spec or {"fixture": name}; "delete": [labels] | "ALL" | "ALL-BUT-ONE" removes nuclides from the finished
+    library through IsotxsLibrary.__delitem__ (what purgeFissionProducts does): group structure and file metadata stay"""
+    lib = load_fixture(item["fixture"]) if "fixture" in item else build(item)
+    dele = item.get("delete")
+    if dele:
+        labels = lib.nuclideLabels
+        for lab in (labels if dele == "ALL" else labels[1:] if dele == "ALL-BUT-ONE" else dele):
+            del lib[lab]
+    return lib
 
 
 def read_prop(lib, name):
@@ -531,6 +539,20 @@ def expected_conflict(snaps):
     return None
 
 
+def metadata_clause(fin, sources, case, sink):
+    """file metadata of the merged library: each block (ISOTXS / PMATRX / GAMISO) is the sources' block when they agree
+    (chi / libraryLabel aside) and the file names are the sources' file names"""
+    for blk, name in enumerate(("isotxsMetadata", "pmatrxMetadata", "gamisoMetadata")):
+        holders = {tuple(kv for kv in s[1][blk][0] if kv[0] not in (0, 1)) for s in sources if s[1][blk][0]}
+        got = tuple(kv for kv in fin[1][blk][0] if kv[0] not in (0, 1))
+        if (len(holders) == 1 and got != next(iter(holders))) or (not holders and got):
+            sink("merge-file-metadata-kept", f"{name} of the merged library identical to the sources'", case, got, sorted(map(str, holders)))
+        files = sorted(f for s in sources for f in s[1][blk][1])
+        if sorted(fin[1][blk][1]) != files:
+            sink("merge-file-metadata-kept", f"{name}.fileNames of the merged library = the sources' file names", case,
+                 sorted(fin[1][blk][1]), files)
+
+
 def run_order(it, attrs, items, order):
     """merge items[order] into a fresh library; returns (n_ok, all_ok, snapshots list incl. before/after, final lib)"""
     from armi.nuclearDataIO import xsLibraries
@@ -570,6 +592,10 @@ def oracle_scenario(ctx, it, attrs, items, tag, case_id, orders, sink):
     srcs = [snap(it, make_lib(x), attrs) for x in items]
     srcs_ordered = [snap(it, make_lib(x), attrs, keep_order=True) for x in items]
     src_extra = [extra_fingerprint(it, make_lib(x)) for x in items]
+    src_groups = []
+    for x in items:
+        lib0 = make_lib(x)
+        src_groups.append((lib0.numGroups, lib0.numGroupsGamma))
     conflict = expected_conflict(srcs)
     results = {}
     for order in orders:
@@ -615,6 +641,13 @@ def oracle_scenario(ctx, it, attrs, items, tag, case_id, orders, sink):
                 if len(vals) == 1 and fin[0][pi] != next(iter(vals)):
                     sink("merge-group-structure-kept", "group structure / dose factors identical to the source", case,
                          fin[0][pi], next(iter(vals)))
+            # hand-over of the group structure and of the file metadata (also from / to libraries without nuclides)
+            for gi, attr in ((0, "numGroups"), (1, "numGroupsGamma")):
+                counts = {src_groups[i][gi] for i in order if src_groups[i][gi]}
+                if len(counts) <= 1 and getattr(r["lib"], attr) != (next(iter(counts)) if counts else 0):
+                    sink("merge-group-structure-kept", f"{attr} of the merged library is the sources' group count", case,
+                         getattr(r["lib"], attr), sorted(counts))
+            metadata_clause(fin, [srcs[i] for i in order], case, sink)
             if conflict and len(order) == len(items):
                 sink("merge-conflict-accepted", f"conflicting inputs ({conflict}) must be rejected, never combined", case,
                      "merge succeeded", "exception")
@@ -703,6 +736,7 @@ def oracle_steps(it, steps, case, sink):
             vals = {x[0][pi] for x in (b, o) if x[0][pi] not in ("_", "N")}
             if len(vals) == 1 and a[0][pi] != next(iter(vals)):
                 sink("merge-group-structure-kept", "group structure / dose factors identical to the source", c, a[0][pi], next(iter(vals)))
+        metadata_clause(a, [b, o], c, sink)
         bx, ox, ax = st["extra"]
         empty = it.val({})
         src = {}
@@ -760,6 +794,96 @@ def positioned_conflicts(rng, ng=2, ngam=2):
             nucs.insert({"first": 0, "middle": 1, "last": 2}[pos], [victim, n])
             other = {"props": {}, "nucs": nucs}
             out.append(([tiso, tgam, tpm, other], f"positioned-{kind}-{pos}", pos))
+    return out
+
+
+def boundary_scenarios(rng, n_random=0):
+    """BOUNDARY SIZES OF THE NUCLIDE SET: libraries with ZERO nuclides (built without any, or purged after construction) or
+    ONE nuclide that still carry a group structure and / or file metadata, as the other library, as the (first-merged) target,
+    on both sides, and inside sequences of 3-5 libraries; consistent with the rest (hand-over of the structure, nothing else
+    changes) or conflicting in neutron / gamma group structure or file metadata (rejected in every order)."""
+    out = []
+
+    def strip(spec, how):
+        x = json.loads(json.dumps(spec))
+        if how == "nonucs":
+            x["nucs"] = []
+        elif how == "one":
+            x["nucs"] = x["nucs"][:1]
+        elif how == "purged":
+            x["delete"] = "ALL"
+        elif how == "one-purged":
+            x["delete"] = "ALL-BUT-ONE"
+        return x
+
+    def family(r, ng, ngam):
+        isoA = gen_lib(r, "iso", "AA", ["U235", "FE56"], ng, ngam, "ISOAA")
+        isoB = gen_lib(r, "iso", "AB", ["U238", "NA23"], ng, ngam, "ISOAB")
+        isoC = gen_lib(r, "iso", "BA", ["O16"], ng, ngam, "ISOBA")
+        gamA = gen_lib(r, "gam", "AA", ["U235"], ng, ngam, "AA.gamiso")
+        gamB = gen_lib(r, "gam", "AB", ["U238"], ng, ngam, "AB.gamiso")
+        pmA = gen_lib(r, "pm", "AA", ["U235", "FE56"], ng, ngam, "AA.pmatrx", dcf=True)
+        pmB = gen_lib(r, "pm", "AB", ["U238"], ng, ngam, "AB.pmatrx", dcf=True)
+        for x in (isoA, isoB, isoC):
+            x["isotxsMetadata"]["data"] = json.loads(json.dumps(isoA["isotxsMetadata"]["data"]))
+            x["isotxsMetadata"]["data"]["libraryLabel"] = ""
+        gamB["gamisoMetadata"]["data"] = json.loads(json.dumps(gamA["gamisoMetadata"]["data"]))
+        pmB["pmatrxMetadata"]["data"] = json.loads(json.dumps(pmA["pmatrxMetadata"]["data"]))
+        pmB["props"] = json.loads(json.dumps(pmA["props"]))
+        same = {"iso": isoB, "gam": gamB, "pm": pmB}
+        full = {"iso": isoA, "gam": gamA, "pm": pmA}
+        hows = ["nonucs", "purged", "one", "one-purged"]
+
+        def conflicting(kind, mode):
+            x = json.loads(json.dumps(same[kind]))
+            prop = {"iso": "neutronEnergyUpperBounds", "gam": "gammaEnergyUpperBounds",
+                    "pm": r.choice(["neutronEnergyUpperBounds", "gammaEnergyUpperBounds"])}[kind]
+            if mode == "scaled":
+                x["props"][prop] = [b * 1.05 for b in x["props"][prop]]
+            elif mode == "count":
+                x["props"][prop] = x["props"][prop] + [x["props"][prop][-1] / 2]
+            else:
+                mname = {"iso": "isotxsMetadata", "gam": "gamisoMetadata", "pm": "pmatrxMetadata"}[kind]
+                x[mname]["data"]["extraKey"] = 3
+            return x
+
+        for kind in ("iso", "gam", "pm"):
+            for how in hows:
+                base = [isoA, gamA, pmA]
+                # consistent, as other / as first-merged target (every order), alone into an empty target, both sides boundary-sized
+                out.append((base + [strip(same[kind], how)], f"boundary-{how}-{kind}-consistent"))
+                out.append(([strip(same[kind], how)], f"boundary-{how}-{kind}-alone"))
+                out.append(([strip(full[kind], how), strip(same[kind], r.choice(hows))], f"boundary-{how}-{kind}-both"))
+                for mode in ("scaled", "count", "metadata"):
+                    bad = strip(conflicting(kind, mode), how)
+                    out.append(([full[kind], bad], f"boundary-{how}-{kind}-conflict-{mode}"))
+                    out.append(([strip(full[kind], r.choice(hows)), bad], f"boundary-{how}-{kind}-both-conflict-{mode}"))
+                    out.append((base + [bad], f"boundary-{how}-{kind}-conflict-{mode}-chain4"))
+        # sequences of 3-5 libraries holding one or two boundary-sized ones
+        pool = [isoA, isoB, isoC, gamA, gamB, pmA, pmB]
+        for _ in range(6):
+            items = r.sample(pool, r.randint(3, 5))
+            for k in r.sample(range(len(items)), r.choice([1, 2])):
+                items[k] = strip(items[k], r.choice(hows))
+            tag = "boundary-sequence"
+            if r.random() < 0.5:
+                kind = r.choice(["iso", "gam", "pm"])
+                items[r.randrange(len(items))] = strip(conflicting(kind, r.choice(["scaled", "count", "metadata"])), r.choice(hows))
+                tag += "-with-conflict"
+            out.append((items, tag))
+
+    import random
+    family(random.Random(99), 2, 2)
+    for _ in range(n_random):
+        sub_start = len(out)
+        family(rng, rng.choice([1, 3, 4]), rng.choice([1, 3]))
+        picked = rng.sample(out[sub_start:], 25)
+        del out[sub_start:]
+        out += picked
+    out.append(([{"fixture": "isoAA"}, {"fixture": "isoAB", "delete": "ALL"}], "boundary-fixture-purged"))
+    out.append(([{"fixture": "isoAA", "delete": "ALL"}, {"fixture": "gamAA", "delete": "ALL-BUT-ONE"}, {"fixture": "pmAA", "delete": "ALL"}],
+                "boundary-fixture-all-purged"))
+    out.append(([{"fixture": "isoAA", "delete": "ALL"}, {"fixture": "isoAA"}], "boundary-fixture-purged-then-full"))
     return out
 
 
@@ -911,7 +1035,7 @@ def run_merge(ctx):
         srcs, results, conflict = oracle_scenario(ctx, it, attrs, items, tag, None, orders, sink)
         for x in srcs:
             wfset.setdefault(enc_lib(x), tag)
-        ctx.count(f"scenario {tag}")
+        ctx.count("scenario " + ("-".join(tag.split("-")[:2]) if tag.startswith(("boundary-", "positioned-")) else tag))
         if conflict:
             ctx.count("expected conflict: " + conflict)
         for order in orders:
@@ -939,6 +1063,10 @@ def run_merge(ctx):
     # (b) directed group-structure scenarios (same on every seed), every order
     for items, tag in directed_scenarios():
         one(items, tag, merge_orders(len(items), rng, 24))
+    # (b2) boundary sizes of the nuclide set (zero / one nuclide with group structure and metadata), every order
+    for k, (items, tag) in enumerate(boundary_scenarios(rng, n_random=ctx.pick(1, 6))):
+        one(items, tag, merge_orders(len(items), rng, ctx.pick(6, 24)))
+        ctx.count("boundary-size scenario: " + tag.split("-")[1])
     # (c) generated scenarios, every order
     ns = ctx.pick(120, 2000)
     for _ in range(ns):
@@ -986,6 +1114,10 @@ def run_merge(ctx):
 
     go_on([{"fixture": "isoAA"}, {"fixture": "isoAA"}, {"fixture": "isoAB"}, {"fixture": "gamAA"}], "fixtures-go-on", (0, 1, 2, 3))
     go_on([{"fixture": "isoAA"}, {"fixture": "f7:"}, {"fixture": "gamAB"}, {"fixture": "pmAA"}], "fixtures-f7-go-on", (0, 1, 2, 3))
+    bnd = [x for x in boundary_scenarios(rng) if len(x[0]) >= 2]
+    for items, tag in rng.sample(bnd, ctx.pick(15, 120)):
+        items = items + [json.loads(json.dumps(rng.choice(items)))] if rng.random() < 0.5 else items
+        go_on(items, tag + "/go-on", tuple(rng.sample(range(len(items)), len(items))))
     for _ in range(ctx.pick(45, 800)):
         items, tag = gen_scenario(rng, ctx, cap=rng.choice([3, 4, 5]))
         if tag == "clean" and rng.random() < 0.7:
